@@ -80,7 +80,11 @@ class Escape:
         if isinstance(exc, ast.Call):
             d = dotted(exc.func)
             if d:
-                return {d.split(".")[-1]}
+                segs = d.split(".")
+                # Class.alternative_constructor(...)  e.g. DSLInvalidError.from_errors([...])
+                if len(segs) >= 2 and segs[-1][:1].islower() and segs[-2][:1].isupper():
+                    return {segs[-2]}
+                return {segs[-1]}
             return {"Exception"}
         if isinstance(exc, ast.Name):
             # a handler variable?
